@@ -356,17 +356,18 @@ class WaitIterator:
 
         if kwargs:
             self._unfinished = {f: k for (k, f) in kwargs.items()}
-            futures: Sequence[Future] = list(kwargs.values())
         else:
             self._unfinished = {f: i for (i, f) in enumerate(args)}
-            futures = args
 
         self._finished: collections.deque[Future] = collections.deque()
         self.current_index: str | int | None = None
         self.current_future: Future | None = None
         self._running_future: Future | None = None
 
-        for future in futures:
+        # Register one callback per distinct future: a future that was passed
+        # more than once is yielded once (under the index or key of its last
+        # occurrence) instead of raising KeyError on its second delivery.
+        for future in list(self._unfinished):
             future_add_done_callback(future, self._done_callback)
 
     def done(self) -> bool:
